@@ -4,8 +4,14 @@ cd /verif/harness && export GOFLAGS=-mod=mod GOPROXY=off GOSUMDB=off GOTOOLCHAIN
 if [ -z "$VERIF_KNOWN" ]; then
   export VERIF_KNOWN=$(python3 -c "import json; print(','.join(f['key'] for f in json.load(open('/verif/known_findings.json'))['findings'] if f['status']=='known'))")
 fi
+MODFLAG=""
+if [ -n "$VERIF_REPO" ]; then
+  # build against another tree (a scratch worktree with a change applied)
+  mkdir -p /tmp/devroot/mod-$$; sed "s#=> /repo#=> $VERIF_REPO#" /verif/harness/go.mod > /tmp/devroot/mod-$$/go.mod; cp /verif/harness/go.sum /tmp/devroot/mod-$$/go.sum
+  MODFLAG="-modfile=/tmp/devroot/mod-$$/go.mod"
+fi
 mkdir -p /tmp/devroot/bin; ln -sfn ${VERIF_REPO:-/repo}/jobmanagers /tmp/devroot/jobmanagers; ln -sfn ${VERIF_REPO:-/repo}/adapters /tmp/devroot/adapters
-go test -tags verif -count=1 -run "$2" ./$1/ -rapid.checks=$3 -rapid.seed=$4 -rapid.shrinktime=30s > /tmp/gotest.log 2>&1
+go test $MODFLAG -tags verif -count=1 -run "$2" ./$1/ -rapid.checks=$3 -rapid.seed=$4 -rapid.shrinktime=30s > /tmp/gotest.log 2>&1
 echo "rc=$?"
 grep -a -v "rapid\] draw\|\[compare\]\|^Array lengths\|^Values are\| != " /tmp/gotest.log | cut -c1-${5:-300} | head -${6:-80}
 rm -rf /verif/harness/props/*/testdata/rapid
